@@ -48,8 +48,11 @@ def mk_fs(it, base="rec.imec0.ap", symbolic_exists=()):
         fs_.size[p.key] = SV(z3.Int(fresh_name("size")))
     for sfx in symbolic_exists:
         fs_.exists[paths[sfx].key] = SV(z3.Bool(fresh_name("exists" + sfx.replace(".", "_"))))
-    b = z3.Const("b0", Bytes)
-    it.ctx.assume(z3.ForAll([b], Df(Cf(b)) == b))
+    # A-MTSCOMP D(C(b)) == b is used through ground instances at the contents in play (keeps every query quantifier free,
+    # so that a failing obligation comes back as `sat` with a model instead of `unknown`)
+    for p_ in paths.values():
+        c_ = fs_.content[p_.key]
+        it.ctx.assume(Df(Cf(c_)) == c_)
     it.session.contracts[pathlib.Path] = lambda it_, a, k: a[0]
     return fs_, paths
 
@@ -76,6 +79,7 @@ def install_mtscomp(it, fs_):
             raise PyRaise(RuntimeError("mtscomp.compress failed part-way"))
         fs_.exists[out.key] = True
         fs_.content[out.key] = Cf(fs_.content[src.key])
+        it_.ctx.assume(Df(Cf(fs_.content[src.key])) == fs_.content[src.key])
         fs_.exists[outmeta.key] = True
         return None
 
@@ -393,5 +397,43 @@ def b_native(B):
                 sr.close()
                 ok = raised and not os.path.exists(files["cbin"]) and os.path.exists(files["bin"]) and open(files["bin"], "rb").read() == orig
                 B.case(("inject_compress", keep, fail_at), ok, detail={"raised": raised, "cbin_exists": os.path.exists(files["cbin"]), "bin_exists": os.path.exists(files["bin"])})
+            finally:
+                shutil.rmtree(d, ignore_errors=True)
+
+
+@bounded(PROPERTY, "native_scratch_retry", bound="real mtscomp: decompress_to_scratch with a failure injected at chunk k in {0,1,2} of 3, then retried without failure; scratch dir given / not given",
+         clause="two-step fault history: nothing left by a failed attempt is ever published under the final name")
+def b_retry(B):
+    import unittest.mock as um
+    rng = np.random.default_rng(B.seed)
+    for with_dir in (True, False):
+        for fail_at in (0, 1, 2):
+            d = tempfile.mkdtemp(prefix="c02_")
+            try:
+                files = _mk_pair(d, 3007, 385, rng, keep=("cbin",))
+                orig = files["D"].tobytes()
+                scratch = pathlib.Path(d) / "scratch" if with_dir else None
+                calls = {"n": 0}
+                real = mtscomp.Reader.read_chunk
+
+                def boom(self, *a, **k):
+                    if calls["n"] == fail_at:
+                        calls["n"] += 1
+                        raise IOError("injected failure")
+                    calls["n"] += 1
+                    return real(self, *a, **k)
+                sr = spikeglx.Reader(files["cbin"], sort=False)
+                raised = False
+                with um.patch.object(mtscomp.Reader, "read_chunk", boom):
+                    try:
+                        sr.decompress_to_scratch(scratch_dir=scratch)
+                    except Exception:
+                        raised = True
+                target = (scratch / "rec.imec1.ap.bin") if with_dir else pathlib.Path(files["bin"])
+                ok1 = (not target.exists()) or target.read_bytes() == orig
+                out = sr.decompress_to_scratch(scratch_dir=scratch)
+                sr.close()
+                ok2 = pathlib.Path(out).read_bytes() == orig and os.path.exists(files["cbin"])
+                B.case(("scratch_retry", with_dir, fail_at), raised and ok1 and ok2, detail={"first_attempt_raised": raised, "final_name_clean_after_failure": ok1, "complete_after_retry": ok2})
             finally:
                 shutil.rmtree(d, ignore_errors=True)
